@@ -85,6 +85,7 @@ def history(rid, cache_type, mask, out_sel1, cut_sel1, out_sel2, cut_sel2, full1
         # the caches hash the argument values: case-split them up front
         a0, a1, newval = (L.concretize(x, 0, 1) for x in (a0, a1, newval))
         b0 = 1 - a0
+        b1_in = b1
         a2, b1, b2 = a0, a1, a0
         calls = []
         for osel, csel, full, vals in ((out_sel1, cut_sel1, full1, (a0, a1, a2)), (out_sel2, cut_sel2, full2, (b0, b1, b2))):
@@ -103,8 +104,10 @@ def history(rid, cache_type, mask, out_sel1, cut_sel1, out_sel2, cut_sel2, full1
             calls.append((out, cuts[csel], full, vals))
         if same_vals:
             calls[1] = (calls[1][0], calls[1][1], calls[1][2], calls[0][3])
-        else:  # the second call differs from the first in the first value only (keeps the case split small)
-            calls[1] = (calls[1][0], calls[1][1], calls[1][2], (b0, calls[0][3][1], calls[0][3][2]))
+        else:  # the second call differs from the first in exactly one of the three values (position b1, case-split)
+            dpos = L.concretize(b1_in, 0, 2)
+            first = calls[0][3]
+            calls[1] = (calls[1][0], calls[1][1], calls[1][2], tuple(1 - x if k == dpos else x for k, x in enumerate(first)))
         interior_supplied = any(nm in prod for _, cut, _, _ in calls for nm in cut)
         if region == "interior" and not interior_supplied:
             return True
@@ -277,7 +280,7 @@ def obligations(tier):  # noqa: C901
                     if thorough and ct in ("hybrid", "disk") and mask != (1 << nf) - 1:
                         continue
                     pre = [(f"{nouts - 2} <= out_sel1 < {nouts}" if thorough else f"out_sel1 == {nouts - 1}") + " and out_sel2 == out_sel1", f"0 <= cut_sel1 <= {3 if thorough else 2} and 0 <= cut_sel2 <= {3 if thorough else 2}",
-                           "0 <= a0 <= 1 and a1 == 0 and b0 == 0 and a2 == 0 and b1 == 0 and b2 == 0",
+                           "0 <= a0 <= 1 and a1 == 0 and b0 == 0 and a2 == 0 and 0 <= b1 <= 2 and b2 == 0 and (b1 == 0 or not same_vals)",
                            "0 <= newval <= 1" if region == "mutation" else "newval == 0", "not full1"]
                     if region == "roots":
                         pre += ["mut == 0"]
@@ -294,7 +297,7 @@ def obligations(tier):  # noqa: C901
                             timeout=600,
                             flags=("tokpickle",) if ct == "disk" else (),
                             bounds=f"{rid}: cache {ct}, cached-function mask {mask:b}; two calls (last output; last two in the thorough tier; every valid set of supplied names, full_output "
-                            f"symbolic, two values 0..1, second call equal or differing in the first value) - region {region}: "
+                            f"symbolic, two values 0..1, second call equal or differing in exactly one value, position case-split) - region {region}: "
                             + {"roots": "root arguments only, no mutation", "interior": "an intermediate value is supplied in some call",
                                "mutation": "update_defaults / update_bound / replace between the calls"}[region],
                             canaries=("last_root_arg_missing_from_key",) if (rid, ct, region) == ("R2", "lru", "roots") and mask == (1 << nf) - 1 else (),
